@@ -379,6 +379,8 @@ class World(object):
 
     # --- driving -------------------------------------------------------
     def check_blocked(self):
+        from vt import watchdog
+        watchdog.check()
         if CLOCK.blocked is not None:
             raise Abort('blocked: %s' % CLOCK.blocked)
 
